@@ -49,6 +49,9 @@ func ValidateConfig(v *viper.Viper) error {
 	if v.GetString("publisher_jwt_key") == "" && v.GetString("jwt_key") == "" {
 		return fmt.Errorf(`%w: one of "jwt_key" or "publisher_jwt_key" configuration parameter must be defined`, ErrInvalidConfig)
 	}
+	if v.GetString("subscriber_jwt_key") == "" && v.GetString("jwt_key") == "" && !v.GetBool("allow_anonymous") {
+		return fmt.Errorf(`%w: one of "jwt_key" or "subscriber_jwt_key" configuration parameter must be defined when "allow_anonymous" is not enabled`, ErrInvalidConfig)
+	}
 	if v.GetString("cert_file") != "" && v.GetString("key_file") == "" {
 		return fmt.Errorf(`%w: if the "cert_file" configuration parameter is defined, "key_file" must be defined too`, ErrInvalidConfig)
 	}
